@@ -352,7 +352,7 @@ class Gen:
         return self.tag
 
     BINDER_POOL = ["tmp", "t", "x", "v"]
-    FREE_POOL = ["list", "cons", "g1", "g2"]
+    FREE_POOL = ["list", "g1", "g2"]
     USER_POOL = ["u1", "u2", "u3"]
 
     def make_macros(self, stream):
@@ -381,9 +381,9 @@ class Gen:
                 macros[name] = dict(arity=2, kind=kind, binder=T)
             elif kind == "wrap":
                 defs.append("(define-syntax %s (syntax-rules () [(_ a ...) (%s a ...)]))" % (name, F))
-                macros[name] = dict(arity=rng.randint(1, 3) if F != "cons" else 2, kind=kind, free=F)
+                macros[name] = dict(arity=rng.randint(1, 3), kind=kind, free=F)
             elif kind == "lam":
-                defs.append("(define-syntax %s (syntax-rules () [(_ a b) ((lambda (%s) (%s %s b)) a)]))" % (name, T, F if F != "cons" else "list", T))
+                defs.append("(define-syntax %s (syntax-rules () [(_ a b) ((lambda (%s) (%s %s b)) a)]))" % (name, T, F, T))
                 macros[name] = dict(arity=2, kind=kind, binder=T)
             elif kind == "rec":
                 defs.append("(define-syntax %s (syntax-rules () [(_) #f] [(_ a) a] [(_ a b ...) (let ((%s a)) (if %s %s (%s b ...)))]))" % (name, T, T, T, name))
@@ -469,8 +469,6 @@ class Gen:
             return "(%s %s %s %s)" % (name, v, self.expr(macros, scope, depth - 1), self.expr(macros, scope + [v], depth - 1))
         if k in ("dot", "dotell"):
             args = [self.expr(macros, scope, depth - 1) for _ in range(m["arity"])]
-            if rng.random() < 0.3 and args:
-                return "(%s %s . %d)" % (name, " ".join(args), self.fresh())
             return "(%s %s)" % (name, " ".join(args))
         args = [self.expr(macros, scope, depth - 1) for _ in range(m["arity"])]
         if k in ("or2", "rec") and args and rng.random() < 0.5:
@@ -494,12 +492,13 @@ class Gen:
         val = str(self.fresh())
         if v in self.FREE_POOL:
             val = "(lambda args (cons %s args))" % self.fresh()
+        inner = scope + ([v] if v not in self.FREE_POOL else [])
         if r < 0.55:
-            return "(let ((%s %s)) %s)" % (v, val, self.wrapped(macros, stream, scope + [v]) if rng.random() < 0.3 else self.expr(macros, scope + [v], 2))
+            return "(let ((%s %s)) %s)" % (v, val, self.wrapped(macros, stream, inner) if rng.random() < 0.3 else self.expr(macros, inner, 2))
         if r < 0.8:
-            return "((lambda (%s) %s) %s)" % (v, self.expr(macros, scope + [v], 2), val)
+            return "((lambda (%s) %s) %s)" % (v, self.expr(macros, inner, 2), val)
         f = "f%d" % self.fresh()
-        self.pending_defs.append("(define (%s %s) %s)" % (f, v, self.expr(macros, [v], 2)))
+        self.pending_defs.append("(define (%s %s) %s)" % (f, v, self.expr(macros, [v] if v not in self.FREE_POOL else [], 2)))
         return "(%s %s)" % (f, val)
 
     def program(self, stream):
